@@ -10,7 +10,7 @@
 (*      prefix splitting, acceptance)                  -> T-FAIL records      *)
 (* and checks that the harness evaluated the symbolic value TLC exported      *)
 (* (ECHO-FAIL = machinery).  One state per observation.                       *)
-EXTENDS DefsMore
+EXTENDS DefsEdit
 Obs == JsonDeserialize(IOEnv.C02OBS)
 VARIABLE i
 Init == i = 0
@@ -86,12 +86,41 @@ PowObsP(o) ==
   /\ (o.ok /\ ~C02_PowScale(o.eus, o.magu)) => Fail("P-FAIL", "pow-scale", [carried |-> q, eu |-> o.eus, magu |-> o.magu])
   /\ (o.ok /\ ~C02_PowScale(o.euv, o.magu)) => Fail("P-FAIL", "pow-value", [typed |-> PowP(o.e), eu |-> o.euv])
 
+\* ---- edits of a default symbol: every spelling, warm or cold memo
+EditP(o) ==
+  LET t == o.t
+      nforms == IF SqOk(t) THEN 2 ELSE 1 IN
+  \A j \in DOMAIN o.phases :
+    LET ph == o.phases[j]
+        last == j = Len(o.phases)
+        d == IF j = 1 THEN DefAfter(t, o.op, o.c) ELSE DefAfter2(t, o.op, o.c, o.c2)
+        want == Four(d) IN
+    /\ (ph.exp.name # want.name \/ ph.exp.sq # want.sq \/ ph.exp.kname # want.kname \/ ph.exp.ksq # want.ksq) => Fail("ECHO-FAIL", "edit-gens", [phase |-> j])
+    /\ (Len(ph.probes) # nforms * (Cardinality(SpellTab[t]) + IF last THEN Cardinality(KiloTab[t]) ELSE 0)) => Fail("ECHO-FAIL", "edit-probes", [phase |-> j])
+    /\ ~ph.ok => Fail("T-FAIL", "edit-call-" \o ph.op, [phase |-> j, exc |-> ph.exc])
+    /\ \A k \in DOMAIN ph.probes :
+         LET p == ph.probes[k]
+             warm == j > 1 \/ o.w = -1 \/ (o.w = p.n)
+             info == [phase |-> j, k |-> k, warm |-> warm, spelling |-> IF Names[p.n].name = Table[t].sym THEN "symbol" ELSE IF p.n \in KiloTab[t] THEN "kilo" ELSE "alias"] IN
+         IF d.on THEN
+           /\ (p.ok # p.base_ok) => Fail("T-FAIL", "edit-acceptance", info)
+           /\ (p.ok /\ ~C02_EditScale(p.eu)) => Fail("P-FAIL", "edit-scale", info)
+           /\ (p.ok /\ ~C02_Dim(p.dim, ProbeDim(t, p.form))) => Fail("P-FAIL", "edit-dimension", info)
+           /\ (p.ok /\ p.conv /\ ~p.tosym.ok) => Fail("P-FAIL", "edit-convert-raises", info)
+           /\ (p.ok /\ p.conv /\ p.tosym.ok /\ ~C02_EditConvert(p.tosym.eu)) => Fail("P-FAIL", "edit-convert", info)
+           /\ (p.ok /\ p.conv /\ p.via.ok /\ p.via.same /\ ~C02_EditConvert(p.via.eu)) => Fail("P-FAIL", "edit-convert-via-si", info)
+         ELSE
+           \* the symbol was removed: an accepted spelling would carry a scale no current definition implies (C12 states the same
+           \* from the side of the history)
+           p.ok => Fail("P-FAIL", "edit-removed-resolves", info)
+
 StepP == i > 0 =>
   LET o == Obs[i] IN
   CASE o.kind = "name" -> NameP(o)
     [] o.kind = "pfx" -> PfxP(o)
     [] o.kind = "conv" -> ConvP(o)
     [] o.kind = "expr" -> ExprP(o)
+    [] o.kind = "edit" -> EditP(o)
     [] o.kind = "ord" -> OrdP(o)
     [] o.kind = "pow" -> PowObsP(o)
 =============================================================================
